@@ -195,8 +195,20 @@ def _sign_known(eng, st, v):
     return None
 
 
+def simp_int(v):
+    """normalise an integer term (array lengths / slice bounds), so that L+1-1 is L"""
+    if isinstance(v, Sym) and v.kind == "int":
+        return V.mk(z3.simplify(v.t), "int")
+    return v
+
+
 def norm_slice(eng, st, sl, n, label):
     """-> (start, length, step) with step in {1,-1}; emits in-range obligations"""
+    r = _norm_slice(eng, st, sl, n, label)
+    return simp_int(r[0]), simp_int(r[1]), r[2]
+
+
+def _norm_slice(eng, st, sl, n, label):
     step = sl.step if sl.step is not None else 1
     if step not in (1, -1):
         if isinstance(step, int) and step > 1 and sl.lo is None and sl.hi is None:
@@ -550,6 +562,8 @@ def array_method(eng, st, bm, args, kwargs, line=0):
         return eng.builtins["numpy." + name].fn(eng, st, a)
     if name == "astype":
         dt = args[0] if args else kwargs.get("dtype")
+        if _dtype_kind(dt) == a.dtype and eng.truthy(st, kwargs.get("copy", True)) is False:
+            return a  # astype(copy=False) with an unchanged dtype returns the array itself
         return _astype(eng, st, a, dt)
     if name == "copy":
         return eng.alloc(st, ArrV(a.shape, a.fn, a.dtype))
